@@ -106,7 +106,13 @@ fn sample_docs() -> Vec<(String, DocD)> {
     doc::fill_cells(&mut rng, &mut l2, Chars::Unicode, Colors::Palette(40), 0x3FF, 1, 50);
     d.layers.push(l2);
     d.sauce = Some(doc::random_sauce(&mut rng));
-    out.push(("layers".to_string(), d));
+    out.push(("layers".to_string(), d.clone()));
+    // the same document with an image layer (role Image: a sixel picture) on top - another chunk layout of the .icy loader
+    let mut l3 = LayerD::plain(4, 2);
+    l3.title = "picture".into();
+    l3.image = Some((20, 12, (0..20 * 12 * 4).map(|i| (i * 5) as u8).collect()));
+    d.layers.push(l3);
+    out.push(("image".to_string(), d));
     out
 }
 
